@@ -22,11 +22,20 @@ def all_occ_empty(F: "bytes", N: "bytes", lo: "int", hi: "int"):
 @lemma(props=["C15", "C01"])
 def occ_transfer(F: "bytes", d: "bytes", N: "bytes", base: "int"):
     """a window d that is a slice of the file has the pattern exactly where the file has it"""
+    reveal("occ")
     requires(0 <= base, base + len(d) <= len(F), d == sub(F, base, base + len(d)))
     ensures(forall(lambda o: implies(base <= o and o - base + len(N) <= len(d), occ(F, N, o) == occ(d, N, o - base)),
                    trigger=occ(F, N, o)))
     ensures(forall(lambda p: implies(0 <= p and p + len(N) <= len(d), occ(d, N, p) == occ(F, N, base + p)),
                    trigger=occ(d, N, p)))
+
+
+@lemma(props=["C15", "C01", "C09"])
+def occ_snoc(F: "bytes", N: "bytes", y0: "ilist", y1: "ilist", x: "int"):
+    """appending a true occurrence keeps 'every reported offset is an occurrence'"""
+    requires(forall(lambda k: occ(F, N, y0[k]), 0, len(y0)), len(y1) == len(y0) + 1)
+    requires(forall(lambda k: y1[k] == y0[k], 0, len(y0)), y1[len(y0)] == x, occ(F, N, x))
+    ensures(forall(lambda k: occ(F, N, y1[k]), 0, len(y1)))
 
 
 @contract("dissect.cobaltstrike.utils:iter_find_needle", mode="all", props=["C15", "C01", "C08", "C09"])
@@ -86,8 +95,11 @@ def _(fp: "file", needle: "bytes", start_offset: "opt[int]", max_offset: "int"):
         when(max_offset > 0 and p != -1,
              [assert_(forall(lambda o: not occ(F, needle, o), base + p_old + 1, base + p))]),
     ])
+    ghost(after="p = d.find(needle, p + 1)", do=[when(p != -1, [assert_(occ(d, needle, p)), assert_(occ(F, needle, base + p))])])
     ghost(after="yield offset", do=[
-        assert_(offset == base + p),
+        assert_(offset == base + p), assert_(len(yielded) == len(y_old) + 1), assert_(yielded[len(y_old)] == base + p),
+        assert_(forall(lambda k: yielded[k] == y_old[k], 0, len(y_old))),
+        occ_snoc(F, needle, y_old, yielded, base + p),
         when(max_offset > 0, [
             assert_(yielded[len(y_old)] == offset), assert_(contains(yielded, offset)),
             assert_(forall(lambda o: implies(contains(y_old, o), contains(yielded, o)), s, len(F),
